@@ -368,15 +368,32 @@ type expect struct {
 	propOK []bool // slot-wise: did the property hold on the implementation for this input
 	anyOf  bool   // P lines with several candidate `now`: handled by group
 	onlySlot int  // history lines: compare just this slot (1-based; 0 = all)
+	asProperty   bool // a mismatch on this line is itself a failure of the property (kind "property")
 	resetVariant bool // R line of a Q/R group
 	objHist  bool // Q lines: results of a reused object; positions answered `range` by the model are not compared
 	group  int
 }
 
 func main() {
+	if j := os.Getenv("C19_TZ_CHILD"); j != "" { // the host zone is the point: do not pin time.Local
+		var seed uint64
+		var n int
+		fmt.Sscanf(j, "%d:%d", &seed, &n)
+		dateutil.SetDelta(0)
+		tzChild(seed, n)
+		return
+	}
 	time.Local = time.UTC
 	os.Setenv("TZ", "UTC")
 	dateutil.SetDelta(0)
+	if j := os.Getenv("C19_DF_CHILD"); j != "" {
+		var job dfJob
+		if err := json.Unmarshal([]byte(j), &job); err != nil {
+			os.Exit(2)
+		}
+		dfChild(job)
+		return
+	}
 	if j := os.Getenv("C19_CONC_CHILD"); j != "" {
 		var job concJob
 		if err := json.Unmarshal([]byte(j), &job); err != nil {
@@ -406,6 +423,8 @@ func main() {
 		"non-trivial = instant inside the century; distinct = distinct instants. " +
 		"D: histories — seeded random sequences of calls mixing every public helper (and a shared DateFormat, and the clock-reading variants) over a pool of instants " +
 		"(same second, adjacent seconds, same minute/day, far apart; interleaved, repeated) plus all ordered pairs of helpers on two instants; each answer vs the time package and vs the model. " +
+		"I: goroutines each building their own NewDateFormat (same pattern / different patterns / a new object per call) and round-tripping their own instants, in child processes (a crash is a finding); two objects of one pattern probed sequentially against the model of a lone object. " +
+		"J: all exported helpers re-checked in child processes with the host zone (TZ) west/east of UTC and with DST; answers must be the UTC answers. K: 120 canary instants re-checked after every stage. " +
 		"G: DateFormat with time.Local in six constant-offset zones (non-hour offsets included; format and parse vs the zone model) and four zones with transitions (round trip judged away from transitions only). " +
 		"H: SetDelta / SetServerTime(…,1.0) moving the clock to instants of the century, then Now / TimeStampNow / YmdNow / GetDateUnitNow vs SystemNow()+delta and vs the package state machine. " +
 		"F: one DateFormat object parsing 2-4 texts in a row (formatted instants, cut short, with signs/letters) vs the object model. " +
@@ -447,6 +466,17 @@ func main() {
 		}
 		rep.CountN("A:spec-days", nDays)
 		rep.Evaluations += nDays
+	}
+
+	// ------------------------------------------------------------ K: canary (answers recorded now, re-checked after every stage)
+	var can *canary
+	if !replayMode {
+		can = newCanary(rng.Fork())
+	}
+	canaryCheck := func(after string) {
+		if can != nil {
+			can.check(rep, after)
+		}
 	}
 
 	// ------------------------------------------------------------ B: helpers
@@ -554,6 +584,7 @@ func main() {
 		}
 	}
 
+	canaryCheck("B")
 	// ------------------------------------------------------------ C: DateFormat
 	group := 0
 	checkPattern := func(pat string, t int64) {
@@ -660,6 +691,7 @@ func main() {
 		}
 	}
 
+	canaryCheck("C")
 	// ------------------------------------------------------------ D: histories
 	// The helpers are specified as functions of the instant; a sequence of calls must therefore
 	// return, call by call, what each call returns alone.  Seeded random sequences mix every
@@ -811,6 +843,7 @@ func main() {
 		}
 	}
 
+	canaryCheck("D")
 	// ------------------------------------------------------------ F: one DateFormat object, several Parse calls
 	// The object keeps its field map between calls (after a successful call all seven keys are set),
 	// so later calls take absent fields from the map, not from the clock.  Model: parseObj/parseHistory.
@@ -998,6 +1031,10 @@ func main() {
 		objHistory("d.m.y", []string{"17.02.2024", "05"}, "witness-cut")
 	}
 
+	if !replayMode {
+		objectsIndependent(rep, add, rng)
+	}
+	canaryCheck("F")
 	// ------------------------------------------------------------ G: DateFormat in other zones
 	// format reads the fields in the zone of its argument, Parse builds the instant in time.Local.
 	// Constant-offset zones (incl. non-hour offsets) are modelled (formatIn / parseObjIn); zones with
@@ -1069,6 +1106,7 @@ func main() {
 		time.Local = time.UTC
 	}
 
+	canaryCheck("G")
 	// ------------------------------------------------------------ H: the clock delta and the …Now variants
 	// Now() = SystemNow() + delta; TimeStampNow / YmdNow / GetDateUnitNow render Now(); SetDelta / SetServerTime(…, 1.0)
 	// set delta; nothing else does (model: Golib.Cal.Pkg).  The delta moves the clock to chosen instants of the century.
@@ -1139,6 +1177,40 @@ func main() {
 		dateutil.SetDelta(0)
 	}
 
+	canaryCheck("H")
+	// ------------------------------------------------------------ I: separately built DateFormat objects used concurrently (child processes)
+	if !replayMode {
+		full, part := "y-m-d H:M:S.s", "y-m-d"
+		ms := 250
+		jobs := []dfJob{
+			{Goroutines: 12, Patterns: []string{full}},                               // everybody builds "the same" formatter
+			{Goroutines: 12, Patterns: []string{part}},                               // partial pattern: per-object field map in play
+			{Goroutines: 12, Patterns: []string{full, "d/m/y H:M:S.s", "ymdHMSs", part}}, // different patterns
+			{Goroutines: 8, Patterns: []string{full}, Renew: true},                   // a new object per call
+		}
+		if env.Thorough {
+			ms = 1500
+			for i := 0; i < 4; i++ {
+				jobs = append(jobs, dfJob{Goroutines: 16, Patterns: []string{genPattern(rng, true), genPattern(rng, true), genPattern(rng, false)}, Renew: i%2 == 1})
+			}
+		}
+		for k, j := range jobs {
+			j.Seed, j.Millis = env.Seed*100+uint64(k), ms
+			dfStage(rep, j, "objects")
+		}
+	}
+	// ------------------------------------------------------------ J: the helper checks under other host zones (child processes, TZ=…)
+	if !replayMode {
+		n := 1500
+		if env.Thorough {
+			n = 40000
+		}
+		for _, z := range []string{"America/New_York", "America/Sao_Paulo", "Pacific/Honolulu", "Asia/Seoul", "Europe/London", "Australia/Lord_Howe", "Pacific/Kiritimati"} {
+			tzStage(rep, env.Seed, z, n)
+		}
+	}
+	canaryCheck("J")
+
 	// ------------------------------------------------------------ E: concurrent calls (child process, see conc.go)
 	if !replayMode {
 		rounds, gor, ms := 2, []int{12, 16}, 450
@@ -1161,6 +1233,23 @@ func main() {
 			checkMalformed(c["pattern"].(string), c["text"].(string))
 		case "Y":
 			checkYmd(c["s"].(string), "replay")
+		case "I":
+			var job dfJob
+			if raw, err := json.Marshal(c); err == nil {
+				json.Unmarshal(raw, &job)
+			}
+			if job.Goroutines > 0 && len(job.Patterns) > 0 {
+				job.Millis = 1000
+				for k := 0; k < 3; k++ {
+					dfStage(rep, job, "replay")
+				}
+			}
+		case "I2":
+			objectsIndependent(rep, add, rng)
+		case "J":
+			tzStage(rep, uint64(c["seed"].(float64)), c["zone"].(string), 4000)
+		case "K":
+			rep.Note("canary findings replay by re-running the whole check (they depend on the stages run before)")
 		case "E":
 			job := concJob{Seed: uint64(c["seed"].(float64)), Goroutines: int(c["goroutines"].(float64)), Millis: 1000}
 			if raw, err := json.Marshal(c["instants"]); err == nil {
@@ -1309,6 +1398,10 @@ func main() {
 			rp["implementation"] = e.want[0]
 			rp["model"] = got
 			kind := "correspondence"
+			if e.asProperty {
+				rep.Fail("property", e.key, fmt.Sprintf("object b answers %q; an object that saw only b's calls answers %q", vh.Clip(e.want[0], 200), vh.Clip(got, 200)), rp)
+				continue
+			}
 			if e.key == "spec:civil-vs-stdlib" {
 				// the Spec calendar itself disagrees with the standard library: the theorems are about the wrong calendar
 				kind = "correspondence"
